@@ -33,7 +33,7 @@ structure Covs (K : Type) where
   gg : K   -- var γ
   dd : K   -- var df_t (db_t, c_t)
   aa : K   -- var α_x
-  tt : K   -- "var" of the summed splice losses as the code forms it (Σ of variances)
+  tt : K   -- variance of the summed splice losses (Σ over all pairs of acting splices of their covariance)
   gd : K
   ga : K
   ad : K
@@ -67,7 +67,7 @@ structure CovsW (K : Type) where
   ff : K   -- var df
   bb : K   -- var db
   aa : K
-  tff : K  -- var τF (code's sum of variances)
+  tff : K  -- var τF (Σ over all pairs of acting splices)
   tbb : K  -- var τB
   gf : K
   gb : K
@@ -81,6 +81,9 @@ structure CovsW (K : Type) where
   ba : K
   btf : K
   btb : K
+  atf : K  -- cov(α, τF)
+  atb : K  -- cov(α, τB)
+  tftb : K -- cov(τF, τB)
 
 /-- `var_w_dict`: `tmpw = wf·tmpf + wb·tmpb` with the weights held constant -/
 def termsW (wf wb : K) (F B : Derivs K) (vst vast vrst vrast : K) (c : CovsW K) : List K :=
@@ -95,7 +98,8 @@ def termsW (wf wb : K) (F B : Derivs K) (vst vast vrst vrast : K) (c : CovsW K) 
    Tg * Tg * c.gg, Tf * Tf * c.ff, Tb * Tb * c.bb, Ta * Ta * c.aa, Ttf * Ttf * c.tff, Ttb * Ttb * c.tbb,
    2 * Tg * Tf * c.gf, 2 * Tg * Tb * c.gb, 2 * Tg * Ta * c.ga, 2 * Tg * Ttf * c.gtf, 2 * Tg * Ttb * c.gtb,
    2 * Tf * Tb * c.fb, 2 * Tf * Ta * c.fa, 2 * Tf * Ttf * c.ftf, 2 * Tf * Ttb * c.ftb,
-   2 * Tb * Ta * c.ba, 2 * Tb * Ttf * c.btf, 2 * Tb * Ttb * c.btb]
+   2 * Tb * Ta * c.ba, 2 * Tb * Ttf * c.btf, 2 * Tb * Ttb * c.btb,
+   2 * Ta * Ttf * c.atf, 2 * Ta * Ttb * c.atb, 2 * Ttf * Ttb * c.tftb]
 
 end Formulas
 
@@ -107,11 +111,16 @@ def sumList (l : List Rat) : Rat := l.foldl (· + ·) 0
 /-- Σ over the splices acting at location `i` in direction `down` (forward: `x ≥ s`, backward: `x < s`) -/
 def overSplices (inp : Input) (i : Nat) (down : Bool) (f : Nat → Rat) : Rat := upstreamSum inp i f down
 
+/-- Σ over all pairs (a, b) of splices with `a` acting at location `i` in direction `downA` and `b` in direction `downB`
+(`splice_loss_covariance`) -/
+def overSplicePairs (inp : Input) (i : Nat) (downA downB : Bool) (f : Nat → Nat → Rat) : Rat :=
+  overSplices inp i downA (fun a => overSplices inp i downB (fun b => f a b))
+
 /-- forward-channel covariances at cell `(i, j)`, double-ended -/
 def covsFwDouble (inp : Input) (pVar : Array Rat) (C : Mat) (i j : Nat) : Covs Rat :=
   let g := Input.colGamma; let d := Input.colDf j; let a := inp.colA i
   let t := fun s => inp.colTaD s 0 j
-  ⟨pVar.getD g 0, pVar.getD d 0, pVar.getD a 0, overSplices inp i true (fun s => pVar.getD (t s) 0),
+  ⟨pVar.getD g 0, pVar.getD d 0, pVar.getD a 0, overSplicePairs inp i true true (fun s s' => C.at (t s) (t s')),
    C.at g d, C.at a g, C.at a d,
    overSplices inp i true (fun s => C.at g (t s)), overSplices inp i true (fun s => C.at d (t s)),
    overSplices inp i true (fun s => C.at a (t s))⟩
@@ -119,7 +128,7 @@ def covsFwDouble (inp : Input) (pVar : Array Rat) (C : Mat) (i j : Nat) : Covs R
 def covsBwDouble (inp : Input) (pVar : Array Rat) (C : Mat) (i j : Nat) : Covs Rat :=
   let g := Input.colGamma; let d := inp.colDb j; let a := inp.colA i
   let t := fun s => inp.colTaD s 1 j
-  ⟨pVar.getD g 0, pVar.getD d 0, pVar.getD a 0, overSplices inp i false (fun s => pVar.getD (t s) 0),
+  ⟨pVar.getD g 0, pVar.getD d 0, pVar.getD a 0, overSplicePairs inp i false false (fun s s' => C.at (t s) (t s')),
    C.at g d, C.at a g, C.at a d,
    overSplices inp i false (fun s => C.at g (t s)), overSplices inp i false (fun s => C.at d (t s)),
    overSplices inp i false (fun s => C.at a (t s))⟩
@@ -131,17 +140,20 @@ def covsW (inp : Input) (pVar : Array Rat) (C : Mat) (i j : Nat) : CovsW Rat :=
   let F := fun (h : Nat → Rat) => overSplices inp i true h
   let B := fun (h : Nat → Rat) => overSplices inp i false h
   { gg := pVar.getD g 0, ff := pVar.getD f 0, bb := pVar.getD b 0, aa := pVar.getD a 0,
-    tff := F (fun s => pVar.getD (tf s) 0), tbb := B (fun s => pVar.getD (tb s) 0),
+    tff := overSplicePairs inp i true true (fun s s' => C.at (tf s) (tf s')),
+    tbb := overSplicePairs inp i false false (fun s s' => C.at (tb s) (tb s')),
     gf := C.at g f, gb := C.at g b, ga := C.at a g, gtf := F (fun s => C.at g (tf s)), gtb := B (fun s => C.at g (tb s)),
     fb := C.at f b, fa := C.at a f, ftf := F (fun s => C.at f (tf s)), ftb := B (fun s => C.at f (tb s)),
-    ba := C.at a b, btf := F (fun s => C.at b (tf s)), btb := B (fun s => C.at b (tb s)) }
+    ba := C.at a b, btf := F (fun s => C.at b (tf s)), btb := B (fun s => C.at b (tb s)),
+    atf := F (fun s => C.at a (tf s)), atb := B (fun s => C.at a (tb s)),
+    tftb := overSplicePairs inp i true false (fun s s' => C.at (tf s) (tb s')) }
 
 /-- single-ended covariances at cell `(i, j)`; in `fix_alpha` mode `aa` is the supplied variance of `A_i` -/
 def covsSingle (inp : Input) (pVar : Array Rat) (C : Mat) (i j : Nat) : Covs Rat :=
   let g := Input.colGamma; let d := inp.colC j
   let a := if inp.alphaMode then inp.colA i else Input.colDalpha
   let t := fun s => inp.colTa s j
-  ⟨pVar.getD g 0, pVar.getD d 0, pVar.getD a 0, overSplices inp i true (fun s => pVar.getD (t s) 0),
+  ⟨pVar.getD g 0, pVar.getD d 0, pVar.getD a 0, overSplicePairs inp i true true (fun s s' => C.at (t s) (t s')),
    C.at g d, C.at a g, C.at a d,
    overSplices inp i true (fun s => C.at g (t s)), overSplices inp i true (fun s => C.at d (t s)),
    overSplices inp i true (fun s => C.at a (t s))⟩
